@@ -88,8 +88,12 @@ func guessRules(R string) RuleFunc {
 			na, nb := core.NormFunc(a.Pkg, a.Decl, subst), core.NormFunc(b.Pkg, b.Decl, subst)
 			if na == nb {
 				c.OK(R, "clone:"+pair[0]+"="+pair[1], c.P.Pos(a.Decl.Pos()), pair[0]+" ≡ "+pair[1]+" (normalised bodies equal)")
+			} else if why, decided := classifierEquiv(c, a, b); decided && why == "" {
+				c.OKd(R, "clone:"+pair[0]+"="+pair[1], c.P.Pos(a.Decl.Pos()), pair[0]+" ≡ "+pair[1], "the bodies differ in spelling; both evaluated on every byte-class sequence up to length 6 x every outcome of the number parser: equal answers")
+			} else if decided {
+				c.Bad(R, "clone:"+pair[0]+"="+pair[1], c.P.Pos(a.Decl.Pos()), pair[0]+" ≡ "+pair[1], "the two classifiers diverge: "+why)
 			} else {
-				c.Bad(R, "clone:"+pair[0]+"="+pair[1], c.P.Pos(a.Decl.Pos()), pair[0]+" ≡ "+pair[1], "the two classifiers diverge: "+core.FirstDiff(na, nb))
+				c.Bad(R, "clone:"+pair[0]+"="+pair[1], c.P.Pos(a.Decl.Pos()), pair[0]+" ≡ "+pair[1], "the two classifiers diverge: "+core.FirstDiff(na, nb)+" ("+why+")")
 			}
 		}
 		// 4. the small predicates: same accept sets
@@ -106,3 +110,121 @@ func guessRules(R string) RuleFunc {
 }
 
 func hasPrefix(s, p string) bool { return len(s) >= len(p) && s[:len(p)] == p }
+
+// classifierEquiv compares two number classifiers (isInteger / IsInteger ...) by evaluation. Each
+// scans the literal's bytes, touching them only through comparisons with '.', 'e', 'E', keeps at most
+// two boolean flags, then asks the number parser (error? fractional length?). Two such machines with
+// at most 4 states each agree on all inputs iff they agree on all byte-class sequences up to length
+// 4+4-2 = 6, for every outcome of the parser. decided=false: a function keeps other state - the
+// argument does not apply.
+func classifierEquiv(c *core.Ctx, a, b *core.DeclSite) (why string, decided bool) {
+	stateOK := func(d *core.DeclSite) bool {
+		ok := true
+		n := map[string]bool{}
+		for _, hd := range helperBodies(c, d, 1) {
+			ast.Inspect(hd.Decl.Body, func(m ast.Node) bool {
+				var body *ast.BlockStmt
+				switch l := m.(type) {
+				case *ast.RangeStmt:
+					body = l.Body
+				case *ast.ForStmt:
+					body = l.Body
+				}
+				if body == nil {
+					return true
+				}
+				ast.Inspect(body, func(k ast.Node) bool {
+					switch as := k.(type) {
+					case *ast.AssignStmt:
+						for _, l := range as.Lhs {
+							id, isID := l.(*ast.Ident)
+							if !isID {
+								ok = false
+								continue
+							}
+							if t := core.TypeOf(hd.Pkg, id); t == nil || t.String() != "bool" {
+								ok = false
+							}
+							n[id.Name] = true
+						}
+					case *ast.IncDecStmt:
+						ok = false
+					}
+					return true
+				})
+				return true
+			})
+		}
+		return ok && len(n) <= 2
+	}
+	if !stateOK(a) || !stateOK(b) {
+		return "a classifier keeps more state in its loop than two flags; not decided by evaluation", false
+	}
+	classes := []int64{'.', 'e', 'E', 'x'}
+	run := func(d *core.DeclSite, seq []int64, perr, frac int64) (int64, string) {
+		e := &miniEval{pk: d.Pkg, env: map[string]int64{"nil": 0}, ctx: c, methods: true}
+		e.rng = func(x ast.Expr) ([]int64, bool) {
+			if t := core.TypeOf(e.pk, x); t != nil {
+				if sl, ok := t.Underlying().(*types.Slice); ok {
+					if bt, ok := sl.Elem().Underlying().(*types.Basic); ok && bt.Kind() == types.Uint8 {
+						return seq, true
+					}
+				}
+			}
+			return nil, false
+		}
+		e.tuple = func(call *ast.CallExpr) ([]int64, bool) {
+			return []int64{1, perr}, true // (number, error) of the parser
+		}
+		e.hook = func(x ast.Expr) (int64, bool) {
+			switch y := x.(type) {
+			case *ast.Ident:
+				if y.Name == "nil" {
+					return 0, true
+				}
+			case *ast.CallExpr:
+				if strings.HasSuffix(core.ExprStr(y.Fun), ".LengthOfFractionalPart") {
+					return frac, true
+				}
+			}
+			return 0, false
+		}
+		st, rets := e.run(d.Decl.Body.List)
+		if e.unknown != "" {
+			return 0, e.unknown
+		}
+		if st != miniReturn || len(rets) != 1 {
+			return 0, "no value returned"
+		}
+		return rets[0], ""
+	}
+	var seqs [][]int64
+	var gen func(cur []int64, depth int)
+	gen = func(cur []int64, depth int) {
+		seqs = append(seqs, append([]int64(nil), cur...))
+		if depth == 6 {
+			return
+		}
+		for _, cl := range classes {
+			gen(append(cur, cl), depth+1)
+		}
+	}
+	gen(nil, 0)
+	for _, seq := range seqs {
+		for _, oc := range [][2]int64{{1, 0}, {0, 0}, {0, 1}} {
+			ra, ua := run(a, seq, oc[0], oc[1])
+			rb, ub := run(b, seq, oc[0], oc[1])
+			if ua != "" || ub != "" {
+				return "undecided: " + ua + ub, false
+			}
+			if ra != rb {
+				var sb strings.Builder
+				for _, ch := range seq {
+					sb.WriteByte(byte(ch))
+				}
+				return core.F("on a literal with the byte classes %q (parser error: %v, fractional digits: %v) one answers %v, the other %v", sb.String(), oc[0] != 0, oc[1] != 0, ra != 0, rb != 0), true
+			}
+		}
+	}
+	return "", true
+}
